@@ -59,6 +59,10 @@ class AddImplicitCastVisitor(Visitor.DefaultVisitor):
         assert node
         assert isinstance(node, ast.ConstructPrimitiveExpression)
 
+        # Arguments may need casts inside of them as well
+        for p in node.GetArguments():
+            self.v_Generic(p, ctx)
+
         # The primitive type of each argument must be the same as the result
         resultType = node.GetType().GetComponentType()
 
@@ -80,6 +84,10 @@ class AddImplicitCastVisitor(Visitor.DefaultVisitor):
 
     def v_CallExpression(self, node, ctx=None):
         assert isinstance(node, ast.CallExpression)
+
+        # Arguments may need casts inside of them as well
+        for arg in node.GetArguments():
+            self.v_Generic(arg, ctx)
 
         # The primitive type of each argument must be the same as the argument type
         argumentTypes = node.function.GetArgumentTypes().values()
